@@ -28,13 +28,13 @@ def replace2 (a b r : Char) : Str → Str
 def unescapeName (n : Str) : Res :=
   decodeUE (replace2 '\\' ':' ':' (replace2 '\\' '.' '.' n))
 
-/-- `_splitRe.split(name)` with `_splitRe = (?<!\\)\.`; the Bool says "previous character is a
-backslash" -/
+/-- `registry.split`: the name is cut at every dot that is not escaped; a backslash escapes exactly
+the character after it (`_unescapedFind`).  The Bool says "this character is escaped". -/
 def splitDots : Bool → Str → List Str
   | _, [] => [[]]
-  | prevBs, c :: cs =>
-    if c = '.' ∧ ¬ prevBs then [] :: splitDots false cs
-    else match splitDots (c = '\\') cs with
+  | esc, c :: cs =>
+    if ¬ esc ∧ c = '.' then [] :: splitDots false cs
+    else match splitDots (!esc && c = '\\') cs with
       | [] => [[c]]
       | p :: ps => (c :: p) :: ps
 
@@ -103,13 +103,14 @@ def closeText (specs : List Spec) : Str := fileText (renderSpecs true specs)
 def oddTrailingBackslashes (line : Str) : Bool :=
   (line.reverse.takeWhile (· = '\\')).length % 2 = 1
 
-/-- `re.split(r'(?<!\\): ', acc, 1)`: first `": "` not preceded by a backslash; `none` = no such
-place (the unpacking raises ValueError → InvalidRegistryFile) -/
+/-- `_unescapedFind(acc, ': ')`: the first `": "` that is not escaped (a backslash escapes exactly
+the next character); `none` = no such place (ValueError → InvalidRegistryFile).  The Bool says
+"this character is escaped". -/
 def splitKV : Bool → Str → Option (Str × Str)
   | _, [] => none
-  | prevBs, c :: cs =>
-    if c = ':' ∧ ¬ prevBs ∧ cs.head? = some ' ' then some ([], cs.drop 1)
-    else match splitKV (c = '\\') cs with
+  | esc, c :: cs =>
+    if ¬ esc ∧ c = ':' ∧ cs.head? = some ' ' then some ([], cs.drop 1)
+    else match splitKV (!esc && c = '\\') cs with
       | none => none
       | some (k, v) => some (c :: k, v)
 
